@@ -356,6 +356,7 @@ class Scanner:
         return False
 
     def accept_postfix_op(self) -> None:
+        self.skip_trivia()
         ch = self.peek()
 
         if ch == "?":
